@@ -70,17 +70,30 @@ func (rep *Report) nativePhase() error {
 	byPkg := map[string][]*HarnessRun{}
 	var order []string
 	for _, r := range rep.Runs {
-		if _, ok := byPkg[r.HSpec.Pkg]; !ok {
-			order = append(order, r.HSpec.Pkg)
+		key := r.HSpec.Pkg
+		if len(r.Spec.Race) > 0 {
+			key += "\x00race" // replayed in a run of its own, under the race detector
 		}
-		byPkg[r.HSpec.Pkg] = append(byPkg[r.HSpec.Pkg], r)
+		if _, ok := byPkg[key]; !ok {
+			order = append(order, key)
+		}
+		byPkg[key] = append(byPkg[key], r)
 	}
 	nWit := 25
 	if rep.Tier == "thorough" {
 		nWit = 80
 	}
-	for _, pkg := range order {
-		runs := byPkg[pkg]
+	for _, key := range order {
+		runs := byPkg[key]
+		pkg := strings.TrimSuffix(key, "\x00race")
+		var racePkgs []string
+		for _, r := range runs {
+			for _, p := range r.Spec.Race {
+				if !contains(racePkgs, p) {
+					racePkgs = append(racePkgs, p)
+				}
+			}
+		}
 		var cases []nativeCase
 		refs := map[int]*caseRef{}
 		files := map[string]bool{}
@@ -131,7 +144,7 @@ func (rep *Report) nativePhase() error {
 				if os.Getenv("GOSYM_LISTVIOL") != "" {
 					fmt.Printf("  [violation] %s label=%q chooses=%v msg=%q\n", r.Spec.Name, lab, v.Chooses, v.Msg)
 				}
-				if seenLabel[lab] >= 3 {
+				if seenLabel[lab] >= 3 || seenLabel[lab] >= 1 && strings.HasPrefix(lab, "data race: ") {
 					continue
 				}
 				seenLabel[lab]++
@@ -151,7 +164,7 @@ func (rep *Report) nativePhase() error {
 		if len(cases) == 0 {
 			continue
 		}
-		results, log, err := runNative(rep.Repo, rep.Verif, pkg, runs[0].PkgName, fileList, rep.rewriteFn(pkg), rep.depPkgs(), cases, os.Getenv("GOSYM_KEEP"))
+		results, log, err := runNative(rep.Repo, rep.Verif, pkg, runs[0].PkgName, fileList, rep.rewriteFn(pkg), rep.depPkgs(), cases, os.Getenv("GOSYM_KEEP"), racePkgs)
 		rep.NativeLog += log
 		if err != nil {
 			return err
@@ -180,6 +193,22 @@ func (rep *Report) nativePhase() error {
 						confirmed = res.Outcome == "timeout"
 					default:
 						confirmed = contains(res.Failed, ref.label)
+						if strings.HasPrefix(ref.label, "data race: ") {
+							// confirmed by the race detector's own report on the forced schedule; the detector reports
+							// a pair of racing stacks once per process, so the report may sit with an earlier case
+							for _, f := range res.Failed {
+								if strings.HasPrefix(f, "data race: ") {
+									confirmed = true
+								}
+							}
+							for _, other := range results {
+								for _, f := range other.Failed {
+									if racePair(f) != "" && racePair(f) == racePair(ref.label) {
+										confirmed = true
+									}
+								}
+							}
+						}
 						if !confirmed && ref.path.Outcome == "panic" && (res.Outcome == "panic" || res.Outcome == "crash") {
 							// the path fails an assertion and then panics; natively the panic (in a goroutine of the
 							// library: the whole test process dies) took the list of failed assertions with it
@@ -215,7 +244,7 @@ func (rep *Report) nativePhase() error {
 				os.RemoveAll(dir)
 				lab, m := violationLabel(&cv.Path)
 				c := []nativeCase{{ID: 0, Harness: r.Spec.Name, Inputs: m, Chooses: cv.Path.Chooses, Params: r.Params, Kind: "violation", Sched: cv.Path.Sched, Selects: cv.Path.Selects}}
-				runNative(rep.Repo, rep.Verif, pkg, r.PkgName, fileList, rep.rewriteFn(pkg), rep.depPkgs(), c, dir)
+				runNative(rep.Repo, rep.Verif, pkg, r.PkgName, fileList, rep.rewriteFn(pkg), rep.depPkgs(), c, dir, racePkgs)
 				mj, _ := json.MarshalIndent(map[string]interface{}{"property": rep.Spec.Property, "harness": r.Spec.Name, "tier": rep.Tier, "expected_label": lab, "engine_outcome": cv.Path.Outcome, "engine_msg": cv.Path.Msg, "inputs": m, "decisions": cv.Path.Decisions, "chooses": cv.Path.Chooses, "params": r.Params, "native": cv.Native}, "", " ")
 				os.WriteFile(filepath.Join(dir, "model.json"), mj, 0o644)
 				cv.Replay = dir
@@ -525,4 +554,18 @@ func (rep *Report) finish(out string, partial bool) int {
 		status = 3
 	}
 	return status
+}
+
+// racePair reduces a data-race label (engine or race detector) to its pair of accesses.
+func racePair(label string) string {
+	if !strings.HasPrefix(label, "data race: ") {
+		return ""
+	}
+	s := strings.TrimPrefix(label, "data race: ")
+	for _, suf := range []string{" are not ordered", " (go test -race)"} {
+		if i := strings.Index(s, suf); i >= 0 {
+			s = s[:i]
+		}
+	}
+	return s
 }
